@@ -96,6 +96,12 @@ def seeded_variants():
         meta = json.load(open(mp))
         det = meta.get("result", {}).get("checks_reporting", {})
         props = sorted({meta["breaks_property"]} | {k for k, x in det.items() if x.get("rc") == 1})
+        if meta.get("status") == "benign-after-fix":
+            # a later fix: commit made this change harmless (its demonstration passes with it): it is now a
+            # behaviour-preserving variant and every check must stay silent on it
+            allp = sorted({json.loads(l)["id"] for l in open(os.path.join(VERIF, "properties.jsonl"))})
+            out.append({"id": f"seeded-{name}-now-benign", "props": allp, "expect": "silent", "rule": None, "patch": f"seeded/{name}/patch.diff"})
+            continue
         out.append({"id": f"seeded-{name}", "props": props, "expect": "detect", "rule": None, "patch": f"seeded/{name}/patch.diff"})
     return out
 
